@@ -18,6 +18,9 @@ Inductive ex :=
 | XConst (k: kind) (v: str) (ty: str)
 | XBin (o: str) (l r: ex)
 | XUn (o: str) (e: ex)
+| XPre (o: str) (e: ex)          (* ++e, --e *)
+| XPost (o: str) (e: ex)         (* e++, e-- : the AST op is "p" ++ o *)
+| XSizeof (e: ex)                (* sizeof(e), e an expression *)
 | XIdx (b i: ex)
 | XMem (b: ex) (ty: str) (f: str)
 | XCall (b: ex) (args: list ex)
@@ -33,7 +36,7 @@ Fixpoint size (e: ex) : nat :=
   match e with
   | XId _ | XConst _ _ _ => 1
   | XBin _ l r => S (size l + size r)
-  | XUn _ x => S (size x)
+  | XUn _ x | XPre _ x | XPost _ x | XSizeof x => S (size x)
   | XIdx b i => S (size b + size i)
   | XMem b _ _ => S (size b)
   | XCall b args => S (size b + list_sum (map size args))
@@ -47,7 +50,9 @@ Fixpoint embx (e: ex) : value unit :=
   | XId a => VNode C_ID [VStr a] None
   | XConst _ v ty => VNode C_Constant [VStr ty; VStr v] None
   | XBin o l r => VNode C_BinaryOp [VStr o; embx l; embx r] None
-  | XUn o x => VNode C_UnaryOp [VStr o; embx x] None
+  | XUn o x | XPre o x => VNode C_UnaryOp [VStr o; embx x] None
+  | XPost o x => VNode C_UnaryOp [VStr (112%N :: o); embx x] None
+  | XSizeof x => VNode C_UnaryOp [VStr (s2l "sizeof"); embx x] None
   | XIdx b i => VNode C_ArrayRef [embx b; embx i] None
   | XMem b ty f => VNode C_StructRef [embx b; VStr ty; VNode C_ID [VStr f] None] None
   | XCall b args => VNode C_FuncCall [embx b; match args with [] => VNone | _ => VNode C_ExprList [VList (map embx args)] None end] None
@@ -61,6 +66,8 @@ Proof. intros e; destruct e; cbn; eexists; eexists; eexists; reflexivity. Qed.
 
 Definition unop_ok (o: str) : bool :=
   match punct_kind_l o with Some k => kind_in k [K_AND; K_TIMES; K_PLUS; K_MINUS; K_NOT; K_LNOT] | None => false end.
+Definition incdec_ok (o: str) : bool :=
+  match punct_kind_l o with Some k => kind_eqb k K_PLUSPLUS || kind_eqb k K_MINUSMINUS | None => false end.
 Definition asgop_ok (o: str) : bool :=
   match punct_kind_l o with Some k => kind_in k tbl_ASSIGNMENT_OPS | None => false end.
 Definition memop_ok (o: str) : bool :=
@@ -77,6 +84,8 @@ Fixpoint wf (e: ex) : Prop :=
   | XConst k v ty => const_ok k v ty = true
   | XBin o l r => prec_lookup_s o <> None /\ wf l /\ wf r
   | XUn o x => unop_ok o = true /\ wf x
+  | XPre o x | XPost o x => incdec_ok o = true /\ wf x
+  | XSizeof x => wf x
   | XIdx b i => wf b /\ wf i
   | XMem b ty _ => memop_ok ty = true /\ wf b
   | XCall b args => wf b /\ (fix wl (l: list ex) : Prop := match l with [] => True | x :: r => wf x /\ wl r end) args
@@ -102,7 +111,9 @@ Fixpoint xt (e: ex) : list (kind * str) :=
   | XId a => [(K_ID, a)]
   | XConst k v _ => [(k, v)]
   | XBin o l r => (if keepLx o l then xt l else wrap l (xt l)) ++ (opk o, o) :: (if keepRx o r then xt r else wrap r (xt r))
-  | XUn o x => (opk o, o) :: wrap x (xt x)
+  | XUn o x | XPre o x => (opk o, o) :: wrap x (xt x)
+  | XPost o x => wrap x (xt x) ++ [(opk o, o)]
+  | XSizeof x => (K_SIZEOF, s2l "sizeof") :: parkv (xt x)
   | XIdx b i => wrap b (xt b) ++ (K_LBRACKET, s2l "[") :: xt i ++ [(K_RBRACKET, s2l "]")]
   | XMem b ty f => wrap b (xt b) ++ [(opk ty, ty); (K_ID, f)]
   | XCall b args => wrap b (xt b) ++ (K_LPAREN, s2l "(") :: commas (map (fun a => vx a (xt a)) args) ++ [(K_RPAREN, s2l ")")]
@@ -119,7 +130,7 @@ Fixpoint to_gt (e: ex) : GenParen.gt ex str :=
 
 Lemma xt_bin : forall e, xt e = match e with XBin _ _ _ => kvg rp ex opnd (to_gt e) | _ => xt e end.
 Proof.
-  induction e as [a|k v ty|o l IHl r IHr|o x IHx|b IHb i IHi|b IHb ty f|b IHb args|c IHc t IHt f IHf|o l IHl r IHr|es]; try reflexivity.
+  induction e as [a|k v ty|o l IHl r IHr|o x IHx|o x IHx|o x IHx|x IHx|b IHb i IHi|b IHb ty f|b IHb args|c IHc t IHt f IHf|o l IHl r IHr|es]; try reflexivity.
   cbn [xt to_gt kvg].
   assert (HL: (if keepLx o l then xt l else wrap l (xt l)) =
               (if GenParen.keepL ex str gprec rp o (to_gt l) then kvg rp ex opnd (to_gt l)
@@ -549,6 +560,109 @@ Proof.
   unfold ret at 1. cbv beta iota. unfold bind at 1. rewrite H7. unfold ret at 1. cbv beta iota.
   unfold bind at 1. unfold coordA, lift_opt. rewrite ENb. cbn [get_coord]. reflexivity.
 Qed.
+(* ---- ++ / -- / sizeof ---- *)
+Definition UnaryS := LevelS P (p_unary_expression P) quiet.
+
+Lemma incdec_kind_facts : forall k, kind_eqb k K_PLUSPLUS || kind_eqb k K_MINUSMINUS = true ->
+  kind_eqb k K_LPAREN = false /\ (okind_is (Some k) K_PLUSPLUS || okind_is (Some k) K_MINUSMINUS) = true /\
+  kind_eqb k K_LBRACKET = false /\ (okind_is (Some k) K_PERIOD || okind_is (Some k) K_ARROW) = false /\
+  startk k = true /\ kind_eqb k K_LBRACE = false.
+Proof. intros k H. destruct k; vm_compute in H; try discriminate H; vm_compute; repeat split. Qed.
+
+Lemma chain_unary : forall kvs X, first_ok kvs -> head_idlp kvs -> R kvs X -> UnaryS kvs X.
+Proof.
+  intros kvs X [k [v [rest0 [Ek [Hds [_ Hlp]]]]]] [k' [v' [rest' [Ek' Hhd]]]] HR s la n l HS HU Hq.
+  rewrite Ek in Ek'. injection Ek' as <- <- <-.
+  pose proof HS as HS0. rewrite Ek in HS. destruct (RoundTrip.Spell_cons_inv P _ _ _ _ HS) as [x1 [tl [-> [Hk1 [_ HStl]]]]]. cbn [app] in HU.
+  assert (Hpass: unary_pass (tk x1) = true) by (rewrite Hk1; exact Hhd).
+  destruct (peek_kind_up P s x1 _ HU) as [s2 [H2 [HU2 _]]].
+  assert (Htp: exists s3, (forall f, try_paren_type_name P (S f) s2 = Ok (None, s3)) /\ Up s3 (x1 :: tl ++ n :: l)).
+  { destruct (kind_eqb k K_LPAREN) eqn:El.
+    2: { apply tptn_no_paren; [exact HU2|]. rewrite Hk1. exact El. }
+    destruct (Hlp eq_refl) as [k2 [v2 [rest2 [-> [_ Hd2]]]]].
+    destruct (RoundTrip.Spell_cons_inv P _ _ _ _ HStl) as [x2 [tl2 [-> [Hk2 [_ _]]]]]. cbn [app] in HU2 |- *.
+    apply tptn_not_type; [exact HU2|rewrite Hk1; exact El|rewrite Hk2; exact Hd2]. }
+  destruct Htp as [s3 [H3 HU3]].
+  destruct (HR s3 (x1 :: tl) (n :: l) HS0 HU3) as [d [N [s4 [HU4 [HN Hred]]]]].
+  destruct (suffixes_stop P s4 n l HU4 Hq) as [s5 [H5 HU5]].
+  exists (d + 4), N, s5. split; [|split; [exact HU5|exact HN]].
+  intros f Hf. destruct f as [|[|[|f]]]; try lia.
+  rewrite (unary_pass_eq P _ _ _ _ H2 Hpass).
+  rewrite (postfix_eq P). unfold bind at 1. rewrite H3. unfold bind at 1. unfold complit_of at 1. unfold ret at 1.
+  destruct (Hred (S f)) as [f1 [Hf1 E1]]; [lia|]. rewrite E1. destruct f1 as [|g]; [lia|]. apply H5.
+Qed.
+
+Lemma pre_cast : forall o kvs X c fs co, incdec_ok o = true -> X = VNode c fs co -> UnaryS kvs X ->
+  CastS ((opk o, o) :: kvs) (VNode C_UnaryOp [VStr o; X] None).
+Proof.
+  intros o kvs X c fs co Ho EX HC s la n l HS HU Hq.
+  destruct (RoundTrip.Spell_cons_inv P _ _ _ _ HS) as [t [la' [-> [Hk [Hv HS']]]]]. cbn [app] in HU.
+  unfold incdec_ok in Ho. unfold opk in Hk. destruct (punct_kind_l o) as [k|]; [|discriminate Ho].
+  destruct (incdec_kind_facts k Ho) as (HnoLP & Hpp & _). rewrite <- Hk in HnoLP, Hpp.
+  destruct (tptn_no_paren P s t _ HU HnoLP) as [s1 [H1 HU1]].
+  destruct (peek_kind_up P s1 t _ HU1) as [s2 [H2 [HU2 _]]].
+  destruct (advance_up P s2 t _ HU2) as [s3 [H3 [HU3 _]]].
+  destruct (HC s3 la' n l HS' HU3 Hq) as [f0 [N [s4 [H4 [HU4 HN]]]]].
+  rewrite EX in HN. destruct (strip_vnode _ _ _ _ HN) as [fs' [co' EN]].
+  exists (S (S f0)), (mkN P C_UnaryOp [VStr (tv t); N] co'), s4. split; [|split; [exact HU4|]].
+  - intros f Hf. destruct f as [|[|f]]; try lia. rewrite (cast_eq P). unfold bind at 1. rewrite H1.
+    rewrite (unary_eq P). unfold bind at 1. rewrite H2. rewrite Hpp.
+    unfold bind at 1. rewrite H3. unfold bind at 1. rewrite (H4 f) by lia. unfold bind at 1.
+    unfold coordA, lift_opt. rewrite EN. cbn [get_coord]. reflexivity.
+  - unfold mkN. cbn [strip map]. rewrite Hv, HN, EX. reflexivity.
+Qed.
+
+Lemma R_post : forall kb o Xb c fs co, Xb = VNode c fs co -> incdec_ok o = true -> R kb Xb ->
+  R (kb ++ [(opk o, o)]) (VNode C_UnaryOp [VStr (112%N :: o); Xb] None).
+Proof.
+  intros kb o Xb c fs co EX Ho HRb s le rest HS HU.
+  destruct (RoundTrip.Spell_app_inv P _ _ _ HS) as [lb [l2 [-> [HSb HS2]]]].
+  destruct (RoundTrip.Spell_cons_inv P _ _ _ _ HS2) as [opt [l3 [-> [Hok [Hov HS3]]]]]. apply (RoundTrip.Spell_nil_inv P) in HS3. subst l3.
+  rewrite <- app_assoc in HU. cbn [app] in HU.
+  unfold incdec_ok in Ho. unfold opk in Hok. destruct (punct_kind_l o) as [k|]; [|discriminate Ho]. rewrite <- Hok in Ho.
+  destruct (incdec_kind_facts _ Ho) as (HnoLP & Hpp & HnoLB & Hnopa & _).
+  destruct (HRb s lb _ HSb HU) as [db [Nb [s1 [HU1 [HNb Hred]]]]].
+  destruct (accept_miss P s1 opt _ K_LBRACKET HU1 HnoLB) as [s2 [H2 [HU2 _]]].
+  destruct (accept_miss P s2 opt _ K_LPAREN HU2 HnoLP) as [s3 [H3 [HU3 _]]].
+  destruct (peek_kind_up P s3 opt _ HU3) as [s4 [H4 [HU4 _]]].
+  destruct (advance_up P s4 opt _ HU4) as [s5 [H5 [HU5 _]]].
+  rewrite EX in HNb. destruct (strip_vnode _ _ _ _ HNb) as [fs' [co' ENb]].
+  exists (db + 1), (mkN P C_UnaryOp [VStr (112%N :: tv opt); Nb] co'), s5. split; [exact HU5|].
+  split; [unfold mkN; cbn [strip map]; rewrite HNb, Hov, EX; reflexivity|].
+  intros f Hf. destruct (Hred f) as [f1 [Hf1 E1]]; [lia|]. destruct f1 as [|g]; [lia|]. exists g. split; [lia|].
+  rewrite E1. rewrite (UnaryShape.suffix_eq P). unfold bind at 1. rewrite H2. unfold bind at 1. rewrite H3.
+  unfold bind at 1. rewrite H4. rewrite Hnopa, Hpp. unfold bind at 1. rewrite H5.
+  unfold bind at 1. unfold coordA, lift_opt. rewrite ENb. cbn [get_coord]. reflexivity.
+Qed.
+
+Lemma sizeof_cast : forall kx X, first_ok kx -> ExprS kx X ->
+  CastS ((K_SIZEOF, s2l "sizeof") :: parkv kx) (VNode C_UnaryOp [VStr (s2l "sizeof"); X] None).
+Proof.
+  intros kx X Hfo HE s la n l HS HU Hq.
+  destruct (RoundTrip.Spell_cons_inv P _ _ _ _ HS) as [t [la' [-> [Hk [Hv HS']]]]]. cbn [app] in HU.
+  assert (HnoLP: kind_eqb (tk t) K_LPAREN = false) by (rewrite Hk; reflexivity).
+  destruct (tptn_no_paren P s t _ HU HnoLP) as [s1 [H1 HU1]].
+  destruct (peek_kind_up P s1 t _ HU1) as [s2 [H2 [HU2 _]]].
+  destruct (advance_up P s2 t _ HU2) as [s3 [H3 [HU3 _]]].
+  (* ( x ... : not a type name *)
+  pose proof HS' as HS0. unfold parkv in HS'. destruct (RoundTrip.Spell_cons_inv P _ _ _ _ HS') as [lp [l2 [-> [Hlp [_ HS2]]]]].
+  destruct Hfo as [k [v [rest [Ek [Hsk Hrest]]]]]. pose proof HS2 as HS2'. rewrite Ek in HS2'. cbn [app] in HS2'.
+  destruct (RoundTrip.Spell_cons_inv P _ _ _ _ HS2') as [x [l3 [-> [Hx [_ _]]]]]. cbn [app] in HU3.
+  assert (Hlpk: kind_eqb (tk lp) K_LPAREN = true) by (rewrite Hlp; reflexivity).
+  assert (Hxd: kind_in (tk x) tbl_DECL_START = false) by (rewrite Hx; exact (proj1 (startk_facts _ Hsk))).
+  destruct (tptn_not_type P s3 lp x _ HU3 Hlpk Hxd) as [s4 [H4 HU4]].
+  assert (HfoP: first_ok (parkv kx)) by (apply first_ok_parkv; exists k, v, rest; split; [exact Ek|split; [exact Hsk|exact Hrest]]).
+  destruct (chain_unary (parkv kx) X HfoP (head_idlp_parkv kx) (R_paren kx X HE) s4 (lp :: x :: l3) n l HS0 HU4 Hq) as [f0 [N [s5 [H5 [HU5 HN]]]]].
+  exists (S (S (S f0))), (mkN P C_UnaryOp [VStr (tv t); N] (Some (mkCoord P (curfile P s5) (tp t)))), s5. split; [|split; [exact HU5|]].
+  - intros f Hf. destruct f as [|[|[|f]]]; try lia. rewrite (cast_eq P). unfold bind at 1. rewrite H1.
+    rewrite (unary_eq P). unfold bind at 1. rewrite H2. rewrite Hk.
+    change (okind_is (Some K_SIZEOF) K_PLUSPLUS || okind_is (Some K_SIZEOF) K_MINUSMINUS) with false.
+    change (okind_in (Some K_SIZEOF) [K_AND; K_TIMES; K_PLUS; K_MINUS; K_NOT; K_LNOT]) with false.
+    change (okind_is (Some K_SIZEOF) K_SIZEOF) with true. cbv iota.
+    unfold bind at 1. rewrite H3. unfold bind at 1. rewrite H4. unfold bind at 1. rewrite (H5 (S f)) by lia.
+    unfold bind at 1. unfold tcoord. unfold bind at 1. rewrite tok_coord_eq. reflexivity.
+  - unfold mkN. cbn [strip map]. rewrite Hv, HN. reflexivity.
+Qed.
 End PX.
 
 Section MainX.
@@ -639,7 +753,7 @@ Proof.
   assert (IHl: forall l, wfl l -> list_sum (map size l) <= n -> Forall T l).
   { intros l Hwl Hs. apply Forall_forall. intros a Ha. apply IH; [pose proof (in_sum l a Ha); lia|].
     exact (proj1 (Forall_forall _ _) (wfl_Forall l Hwl) a Ha). }
-  destruct e as [a|k v ty|o l r|o x|b i|b ty fld|b args|c t f|o l r|es]; cbn [size] in Hn; cbn [wf] in Hw.
+  destruct e as [a|k v ty|o l r|o x|o x|o x|x|b i|b ty fld|b args|c t f|o l r|es]; cbn [size] in Hn; cbn [wf] in Hw.
   - (* identifier *)
     apply T_of_chain; try reflexivity.
     + exists K_ID, a, []. split; [reflexivity|]. split; [reflexivity|]. split; [reflexivity|]. intros H; discriminate H.
@@ -675,6 +789,30 @@ Proof.
     destruct (unop_kind_facts k Ho) as (HnoLP & _ & _ & Hds & Hlb).
     eexists; eexists; eexists. split; [reflexivity|]. split; [|split; [exact Hlb|intros E; congruence]].
     clear -Ho. destruct k; vm_compute in Ho; try discriminate Ho; reflexivity.
+  - (* prefix ++ / -- *)
+    destruct Hw as (Ho & Hx). assert (HT: T x) by (apply IH; [lia|exact Hx]).
+    destruct (embx_node x) as [c [fs [co EX]]].
+    assert (HCa: CastS (xt (XPre o x)) (embx (XPre o x))).
+    { cbn [RoundTripX.xt embx]. eapply pre_cast; [exact Ho|exact EX|].
+      apply chain_unary; [apply T_first_opnd; exact HT|apply T_head_opnd; exact HT|apply T_R_opnd; exact HT]. }
+    apply T_of_cond; try reflexivity; [|apply cast_to_cond; exact HCa].
+    cbn [RoundTripX.xt]. unfold incdec_ok in Ho. unfold opk. destruct (punct_kind_l o) as [k|]; [|discriminate Ho].
+    destruct (incdec_kind_facts k Ho) as (HnoLP & _ & _ & _ & Hsk & Hlb).
+    eexists; eexists; eexists. split; [reflexivity|]. split; [exact Hsk|split; [exact Hlb|intros E; congruence]].
+  - (* postfix ++ / -- *)
+    destruct Hw as (Ho & Hx). assert (HT: T x) by (apply IH; [lia|exact Hx]).
+    destruct (embx_node x) as [c [fs [co EX]]].
+    assert (Hf: first_ok (xt (XPost o x))) by (cbn [RoundTripX.xt]; apply first_ok_app; apply T_first_opnd; exact HT).
+    assert (HCa: CastS (xt (XPost o x)) (embx (XPost o x))).
+    { apply chain_cast; [exact Hf|cbn [RoundTripX.xt]; apply head_idlp_app; apply T_head_opnd; exact HT|].
+      cbn [RoundTripX.xt embx]. eapply R_post; [exact EX|exact Ho|apply T_R_opnd; exact HT]. }
+    apply T_of_cond; try reflexivity; [exact Hf|apply cast_to_cond; exact HCa].
+  - (* sizeof expression *)
+    assert (HT: T x) by (apply IH; [lia|exact Hw]).
+    assert (HCa: CastS (xt (XSizeof x)) (embx (XSizeof x))).
+    { cbn [RoundTripX.xt embx]. apply sizeof_cast; [exact (proj1 HT)|apply T_expr; exact HT]. }
+    apply T_of_cond; try reflexivity; [|apply cast_to_cond; exact HCa].
+    cbn [RoundTripX.xt]. eexists; eexists; eexists. split; [reflexivity|]. split; [reflexivity|split; [reflexivity|intros E; discriminate E]].
   - (* subscript *)
     destruct Hw as (Hb & Hi). assert (HTb: T b) by (apply IH; [lia|exact Hb]). assert (HTi: T i) by (apply IH; [lia|exact Hi]).
     destruct (embx_node b) as [c [fs [co EX]]].
